@@ -336,3 +336,20 @@ class LockAnalysis:
                     held.add(k)
                     changed = True
         return held
+
+
+def late_lock_constructions(ci):
+    """[(method, node)] where a threading lock is built and bound to a self attribute outside the constructor (and the
+    copy / unpickle hooks): a lazily built or rebound lock does not exclude the threads that race on its creation"""
+    import ast as _ast
+    from .loader import dotted as _dotted, is_self_attr as _isa
+    out = []
+    for m in ci.methods.values():
+        if m.name in ("__init__", "__post_init__", "__setstate__", "__deepcopy__", "__copy__"):
+            continue
+        for n in _ast.walk(m.node):
+            if isinstance(n, (_ast.Assign, _ast.AnnAssign)) and n.value is not None and isinstance(n.value, _ast.Call) \
+                    and (_dotted(n.value.func) or "").split(".")[-1] in ("Lock", "RLock") \
+                    and any(_isa(t) for t in (n.targets if isinstance(n, _ast.Assign) else [n.target])):
+                out.append((m, n))
+    return out
